@@ -431,10 +431,18 @@ def wfDoc (k : Kind) (d : List Stmt) : Bool :=
 
 /-! ### the experiment the harness performs, per query -/
 
+/-- `stmts` is the CURRENT content of the document object the selections are made on.
+`history` / `before` describe how that object got there (for the harness: built with the content
+`before`, validated directly or by a verifier constructor, queried, then edited in place or
+through a struct copy into `stmts`, re-validated or not). The model does not look at them:
+selection is a function of the current content only (`Props/C08.lean`,
+`selection_depends_only_on_current_content`). -/
 structure Input where
   kind : Kind
   stmts : List Stmt
   queries : List Text       -- oci: artifact references; blob: policy names
+  history : String          -- e.g. "unvalidated", "validated", "validated,warm,edit-inplace,revalidated", "validated,copy,edit-assign"
+  before : Option (List Stmt)  -- content the object was built and validated with, when it was edited afterwards
   deriving Repr, FromJson, ToJson
 
 /-- the uniqueness part of validity, of an input -/
